@@ -202,7 +202,13 @@ pub enum Op {
         #[serde(default)]
         hint: u8,
     },
-    FromIter { m: u8, items: Vec<(u32, u32)> },
+    FromIter {
+        m: u8,
+        items: Vec<(u32, u32)>,
+        /// size-hint lie mode as for `Extend`
+        #[serde(default)]
+        hint: u8,
+    },
     IterMutWrite { m: u8, mask: u64, pct: u8, p: u32, values_mut: bool },
     // ---- map: handles
     Entry { m: u8, k: KeySel, chain: Vec<EStep>, p: u32 },
@@ -261,7 +267,12 @@ pub enum Op {
         #[serde(default)]
         hint: u8,
     },
-    SFromIter { s: u8, items: Vec<u32> },
+    SFromIter {
+        s: u8,
+        items: Vec<u32>,
+        #[serde(default)]
+        hint: u8,
+    },
     SClear { s: u8 },
     SReserve { s: u8, n: Arg },
     STryReserve { s: u8, n: Arg, oom: bool },
